@@ -233,7 +233,7 @@ class Signal(object):
         :return:
         """
         from scipy.signal import butter, filtfilt
-        if isinstance(cut_off, list) or isinstance(cut_off, tuple) or isinstance(cut_off, np.Array):
+        if isinstance(cut_off, list) or isinstance(cut_off, tuple) or isinstance(cut_off, np.ndarray):
             pass
         else:
             raise ValueError("cut_off must be list, tuple or array.")
